@@ -54,7 +54,7 @@ func NewTokenLimiter(rate, burst int, store *redis.Redis, key string) *TokenLimi
 		tokenKey:      tokenKey,
 		timestampKey:  timestampKey,
 		redisAlive:    1,
-		rescueLimiter: xrate.NewLimiter(xrate.Every(time.Second/time.Duration(rate)), burst),
+		rescueLimiter: xrate.NewLimiter(xrate.Limit(rate), burst),
 	}
 }
 
